@@ -674,6 +674,12 @@ def run_shard(sh, rec):
         grids.append((DYADIC[d][0][0], float(rng.uniform(0.3, 7.0)), "noise"))
     for _ in range(sh["nrand"]):
         shape = util.shape2d(rng, 5, 24) if d == 2 else util.shape3d(rng, 5, 12)
+        if rng.random() < 0.25:
+            # one long axis (34..70 cells), thin other axes (seams of slab-wise wrappers)
+            ls = [int(x) for x in rng.integers(5, 8, size=d)]
+            ls[int(rng.integers(d))] = int(rng.integers(34, 71))
+            shape = tuple(ls)
+            rec.count("grids_with_one_long_axis")
         grids.append((shape, float(rng.uniform(0.3, 7.0)), "noise"))
 
     for shape, xr, leg in grids:
